@@ -18,7 +18,7 @@ CHECK = {
                  "thorough": {"cases": 2500, "shards": 16, "soft_s": 420}}],
     "floors": {"modifies_model_sharing_layers": 0.3, "restart": 0.2, "delete_ok": 0.2, "copy_ok": 0.1, "create_with_uppercase_digest": 0.2,
                "pull_ok_with_delete_of_unrelated_model_in_between": 0.015},
-    "rule": "rapid-generated operation sequences over a colliding name pool run through the real router (blob upload, create from files - the digest spelled as computed, in upper-case or mixed-case hex - or from a model, "
+    "rule": "Added in the last session: a model file with a recognised chat template and requests that spell out that template; names that spell out the default host in other letter cases; blob uploads under the right digest in upper case and under a wrong digest. rapid-generated operation sequences over a colliding name pool run through the real router (blob upload, create from files - the digest spelled as computed, in upper-case or mixed-case hex - or from a model, "
             "with system/template/license/parameters incl. an empty license entry, copy, delete, pull from a fault-free fake registry whose library includes zero-length layers, restart = the startup sequence with pruning, list; "
             "two overlapping forms: two clients deleting two models at the same moment, and a delete of a model that shares no layer with the model being pulled, issued between two registry requests of that pull); non-trivial = the history contains a delete / re-create / pull-replace of a model "
             "that shares a layer with another listed model, or an operation whose name differs from a listed one only by letter case; distinct = distinct hash of the generated case.",
